@@ -37,9 +37,11 @@ pub struct OCell {
     pub covered: bool,
     /// a cell comment (office:annotation with its own paragraphs) before the cell's text: not part of the value
     pub annotation: bool,
+    /// (columns, rows) a merged region starting at this cell spans; the cells it hides follow as covered cells
+    pub spanned: Option<(u32, u32)>,
 }
 impl OCell {
-    pub fn new(val: OVal) -> OCell { OCell { val, formula: None, covered: false, annotation: false } }
+    pub fn new(val: OVal) -> OCell { OCell { val, formula: None, covered: false, annotation: false, spanned: None } }
     pub fn empty() -> OCell { OCell::new(OVal::Empty) }
 }
 
@@ -74,6 +76,8 @@ pub struct OBook {
     /// indent the document: a line break and two spaces per level between elements, never inside a paragraph
     /// (LibreOffice writes this when 'size optimisation for ODF' is switched off)
     pub indent: bool,
+    /// styles of other families reuse the names of the table styles (names are unique per family only) and follow them
+    pub style_name_collision: bool,
 }
 
 fn spaces_xml(n: usize, mode: SpaceMode, at_start: bool) -> String {
@@ -115,6 +119,7 @@ fn cell_xml(c: &OCell, rep: u32) -> String {
     let mut a = String::new();
     if rep != 1 { a.push_str(&format!(" table:number-columns-repeated=\"{rep}\"")); }
     if let Some(f) = &c.formula { a.push_str(&format!(" table:formula=\"{}\"", esc(f))); }
+    if let Some((sc, sr)) = c.spanned { a.push_str(&format!(" table:number-columns-spanned=\"{sc}\" table:number-rows-spanned=\"{sr}\"")); }
     let mut body = String::new();
     match &c.val {
         OVal::Empty => {}
@@ -154,6 +159,11 @@ pub fn content_xml(b: &OBook) -> String {
     o.push_str("<office:automatic-styles>");
     o.push_str("<style:style style:name=\"ta1\" style:family=\"table\"><style:table-properties table:display=\"true\"/></style:style>");
     o.push_str("<style:style style:name=\"ta2\" style:family=\"table\"><style:table-properties table:display=\"false\"/></style:style>");
+    if b.style_name_collision {
+        o.push_str("<style:style style:name=\"ta1\" style:family=\"table-column\"><style:table-column-properties style:column-width=\"2cm\"/></style:style>");
+        o.push_str("<style:style style:name=\"ta2\" style:family=\"table-row\"><style:table-row-properties style:row-height=\"1cm\"/></style:style>");
+        o.push_str("<style:style style:name=\"ta2\" style:family=\"table-cell\"/>");
+    }
     o.push_str("</office:automatic-styles><office:body><office:spreadsheet>");
     for s in &b.sheets {
         let st = match s.display { None => String::new(), Some(true) => " table:style-name=\"ta1\"".into(), Some(false) => " table:style-name=\"ta2\"".into() };
